@@ -80,6 +80,25 @@ def decorate(plan, seed, p_clock=0.6, p_int=0.6):
             if not any(o['op'] in ('step', 'solve') for o in ops[at + 1:]):
                 ops.append({'op': 'set', 'what': 'limits', 'arg': [r2.choice([5, 10, 30]), None, True]})
                 ops.append({'op': 'solve'})
+    # a termination that looks at the OBJECTIVE (GradientNormTolerance differentiates the raw cost at the current best), and the
+    # objective replaced between two Steps: the stop rule has to be the one of the objective in force at that moment
+    r4 = sub_rng(seed, 'plan.c05.gnt')
+    if r4.random() < 0.12 and not isinstance(plan['cost']['params'].get('parts'), list):
+        g = lambda: {'t': 'GradientNormTolerance', 'kw': {'tolerance': r4.choice([1e-3, 0.1, 1.0, 10.0, 100.0]), 'norm': r4.choice(['inf', 'inf', 2, 1])}}
+        sets = [o for o in ops if o['op'] == 'set' and o['what'] == 'termination']
+        if not sets:
+            ops.insert(first_run, {'op': 'set', 'what': 'termination', 'arg': g()})
+        for o in sets:
+            c = r4.random()
+            if c < 0.4: o['arg'] = g()
+            elif c < 0.8: o['arg'] = {'t': 'Or', 'of': [g(), o['arg']] if r4.random() < 0.5 else [o['arg'], g()]}
+            else: o['arg'] = {'t': 'And', 'of': [g(), o['arg']]}
+        for _ in range(r4.choice([1, 1, 2])):
+            runs = [i for i, o in enumerate(ops) if o['op'] in ('step', 'solve')]
+            if not runs: break
+            at = r4.choice(runs) + 1
+            ops.insert(at, {'op': 'set', 'what': 'objective', 'arg': gen.gen_cost(r4, plan['dim'], ['quad', 'quad', 'abs', 'rosen', 'maxabs', 'flat'])})
+            ops.insert(at + 1, {'op': 'step', 'n': r4.randint(1, 3)})
     return plan
 
 def _gen_plan(seed, tier):
